@@ -106,6 +106,10 @@ func c13Ctx(state byte, tok string) context.Context {
 	if state == '0' {
 		return nil
 	}
+	if state == '4' {
+		// exactly the empty background context, passed explicitly: still "a context of its own"
+		return context.Background()
+	}
 	ctx := context.WithValue(context.Background(), c13CtxKey{}, tok)
 	switch state {
 	case '2':
@@ -263,6 +267,10 @@ func c13Submit(in []string) []string {
 	}
 	if seen.calls != 1 {
 		seen.client = fmt.Sprintf("calls=%d", seen.calls)
+	}
+	if c13Flag(flags, 'o') == '4' && seen.ctx == "bg" {
+		// the operation's own context IS the background context: no token to find in it
+		seen.ctx = "op"
 	}
 	return []string{kind, proto.B(msg), proto.Bool(v.called), proto.B(v.cons), proto.N(v.code), proto.B(v.message),
 		proto.L(v.first), all, proto.B(v.body), proto.B(ret), proto.B(seen.client), proto.B(seen.ctx), proto.Bool(seen.deadline)}
@@ -491,7 +499,11 @@ func c13GenS(r *proto.Rng) []string {
 		}
 		return pick(common, "0113")
 	}
-	flags := string([]byte{'c', pick('0', "01"), 'p', pick('0', "01"), 'o', ctx('0'), 'r', ctx('1'),
+	octx := ctx('0')
+	if r.Chance(1, 8) {
+		octx = '4'
+	}
+	flags := string([]byte{'c', pick('0', "01"), 'p', pick('0', "01"), 'o', octx, 'r', ctx('1'),
 		't', pick('1', "012"), 'g', pick('0', "01"), 'e', pick('0', "01"), 'n', pick('0', "01")})
 	return c13Case(hdrs, dflt, keys, code, status, queries, string(body), flags)
 }
